@@ -338,6 +338,28 @@ Definition race3 : list step :=
    FetchTracking 1; FetchTracking 2; MergeLocal 1; MergeLocal 2;
    PushRef 2; PushRef 1].
 
+(* ------------------------------------------------------------------ the known class *)
+(* Known_C10: some clone's notes push (PushRef c) comes after another clone's notes push that
+   itself came after c's latest pre-push fetch (FetchTracking c): the overlap of two pushes.
+   window c seen q scans q after a FetchTracking c. *)
+Fixpoint window (c : nat) (seen : bool) (q : list step) : bool :=
+  match q with
+  | [] => false
+  | PushRef c' :: r => if Nat.eqb c' c then seen else window c true r
+  | FetchTracking c' :: r => if Nat.eqb c' c then false else window c seen r
+  | _ :: r => window c seen r
+  end.
+
+Fixpoint Known_C10 (q : list step) : bool :=
+  match q with
+  | [] => false
+  | FetchTracking c :: r => window c false r || Known_C10 r
+  | _ :: r => Known_C10 r
+  end.
+
+Definition rejected (o : option pres) : bool :=
+  match o with Some PRejected => true | _ => false end.
+
 (* results in a canonical form for the driver: the distinct keys with their values *)
 Definition canon (m : nmap) : nmap :=
   mk_map (dedup (keys m)) (fun k => lookup k m).
